@@ -205,11 +205,11 @@ pub fn gen(args: &Args) {
                 format!("--output-file-path={}", out_path),
                 format!("--params-file-path={}", par_path),
             ];
-            let _ = Command::new(&bin).args(&pargs).current_dir(&wd).output();
+            let _ = Command::new(&bin).args(&pargs).current_dir(&wd).output_t();
             old_out = std::fs::read(&out_path).unwrap_or_default();
             old_par = std::fs::read(&par_path).unwrap_or_default();
         }
-        let res = Command::new(&bin).args(&argv).current_dir(&wd).output();
+        let res = Command::new(&bin).args(&argv).current_dir(&wd).output_t();
         let (exit, stdout) = match res {
             Ok(o) => (o.status.code().unwrap_or(-9), String::from_utf8_lossy(&o.stdout).to_string()),
             Err(_) => (-8, String::new()),
@@ -266,7 +266,7 @@ pub fn gen(args: &Args) {
                 let chk = format!("{}/chk.json", wd);
                 let ok = serde_json::from_slice::<Value>(&b).is_ok()
                     && Command::new(&bin).args([format!("--input-file-path={}", par_path), format!("--output-file-path={}", chk)])
-                        .current_dir(&wd).output().map(|o| o.status.success()).unwrap_or(false)
+                        .current_dir(&wd).output_t().map(|o| o.status.success()).unwrap_or(false)
                     && match (&expect, std::fs::read(&chk).ok().and_then(|x| serde_json::from_slice::<Table>(&x).ok())) {
                         (Some((params, loc, dr)), Some(t)) => t == prayer_times_dt_rng(params, *loc, dr),
                         _ => false,
@@ -290,16 +290,16 @@ pub fn gen(args: &Args) {
             let par2 = format!("{}/params2.json", wd);
             a1.push(format!("--output-file-path={}", o1));
             a1.push(format!("--params-file-path={}", par2));
-            let e1 = Command::new(&bin).args(&a1).current_dir(&wd).output().map(|o| o.status.code().unwrap_or(-9)).unwrap_or(-8);
+            let e1 = Command::new(&bin).args(&a1).current_dir(&wd).output_t().map(|o| o.status.code().unwrap_or(-9)).unwrap_or(-8);
             let a2 = vec![format!("--input-file-path={}", par2), format!("--output-file-path={}", o2)];
-            let e2 = Command::new(&bin).args(&a2).current_dir(&wd).output().map(|o| o.status.code().unwrap_or(-9)).unwrap_or(-8);
+            let e2 = Command::new(&bin).args(&a2).current_dir(&wd).output_t().map(|o| o.status.code().unwrap_or(-9)).unwrap_or(-8);
             let same = match (std::fs::read(&o1), std::fs::read(&o2)) {
                 (Ok(x), Ok(y)) => x == y && !x.is_empty(),
                 _ => false,
             };
             // and the terminal listing of the two runs
-            let l1 = Command::new(&bin).args(a1.iter().filter(|a| !a.starts_with("--output-file-path") && !a.starts_with("--params-file-path"))).current_dir(&wd).output();
-            let l2 = Command::new(&bin).args(&a2[..1]).current_dir(&wd).output();
+            let l1 = Command::new(&bin).args(a1.iter().filter(|a| !a.starts_with("--output-file-path") && !a.starts_with("--params-file-path"))).current_dir(&wd).output_t();
+            let l2 = Command::new(&bin).args(&a2[..1]).current_dir(&wd).output_t();
             let same_listing = match (l1, l2) {
                 (Ok(x), Ok(y)) => x.stdout == y.stdout && x.status.success() && y.status.success(),
                 _ => false,
@@ -331,9 +331,9 @@ pub fn gen(args: &Args) {
             format!("--start-date={}", start), format!("--end-date={}", start + chrono::Duration::days(span - 1)),
             format!("--output-file-path={}", o1), format!("--params-file-path={}", par),
         ];
-        let e1 = Command::new(&bin).args(&a1).current_dir(&wd).output().map(|o| o.status.code().unwrap_or(-9)).unwrap_or(-8);
+        let e1 = Command::new(&bin).args(&a1).current_dir(&wd).output_t().map(|o| o.status.code().unwrap_or(-9)).unwrap_or(-8);
         let a2 = vec![format!("--input-file-path={}", par), format!("--output-file-path={}", o2)];
-        let e2 = Command::new(&bin).args(&a2).current_dir(&wd).output().map(|o| o.status.code().unwrap_or(-9)).unwrap_or(-8);
+        let e2 = Command::new(&bin).args(&a2).current_dir(&wd).output_t().map(|o| o.status.code().unwrap_or(-9)).unwrap_or(-8);
         let same = match (std::fs::read(&o1), std::fs::read(&o2)) {
             (Ok(x), Ok(y)) => x == y && !x.is_empty(),
             _ => false,
@@ -350,7 +350,7 @@ pub fn gen(args: &Args) {
         let out = format!("{}/o.json", wd);
         let before = (chrono::Utc::now() + chrono::Duration::hours(off_h)).date_naive();
         let res = Command::new(&bin).args(["--latitude=10", "--longitude=20", "--gmt=1", &format!("--output-file-path={}", out)])
-            .env("TZ", tz).current_dir(&wd).output();
+            .env("TZ", tz).current_dir(&wd).output_t();
         let after = (chrono::Utc::now() + chrono::Duration::hours(off_h)).date_naive();
         let exit = res.map(|o| o.status.code().unwrap_or(-9)).unwrap_or(-8);
         let keys: Vec<i64> = std::fs::read_to_string(&out).ok().and_then(|t| serde_json::from_str::<Table>(&t).ok())
